@@ -1,6 +1,7 @@
 """C18 Validation levels only change when errors surface, never the result."""
 from hypothesis import strategies as st
 
+from .. import model as M
 from .. import gen, grammar as G, observe as O
 from ..env import gfapy, GfapyError
 from ..runner import Part, Violation
@@ -8,7 +9,10 @@ from . import c04, c07
 
 ID = "C18"
 RULE = ("part 'levels': generated valid documents loaded at vlevel 0,1,2,3: same observation (records compared "
-        "through the canonicaliser between level 0 and the others, literally among 1,2,3), all accepted; plus "
+        "through the canonicaliser between level 0 and the others, literally among 1,2,3), all accepted, version "
+        "given or inferred; the same edit (rename of a referenced line, removal) gives the same document and graph "
+        "at every level; an invalid sequence assigned to any segment of the Gfa is reported at the assignment at "
+        "level 3 and at the write at level 2; plus "
         "mutated (possibly invalid) documents: accepted at level k implies accepted at every lower level. part "
         "'assign': programs of field/tag assignments on stand-alone lines (7 tag datatypes and 17 positional "
         "slots; values = string forms that the independent grammar accepts or rejects: pool values and their "
@@ -25,11 +29,11 @@ ASSUMPTIONS = [
 ]
 
 
-def load_levels(lines, version):
+def load_levels(lines, version, auto=False):
     out = {}
     for k in range(4):
         try:
-            out[k] = gfapy.Gfa(list(lines), version=version, vlevel=k)
+            out[k] = gfapy.Gfa(list(lines), vlevel=k) if auto else gfapy.Gfa(list(lines), version=version, vlevel=k)
         except GfapyError as e:
             out[k] = e
         except Exception as e:
@@ -39,7 +43,7 @@ def load_levels(lines, version):
 
 def prop_levels(case):
     lines, version = case["lines"], case["version"]
-    res = load_levels(lines, version)
+    res = load_levels(lines, version, case.get("auto", False))
     acc = {k: isinstance(v, gfapy.Gfa) for k, v in res.items()}
     text = "\n".join(lines)
     for k in range(4):
@@ -66,7 +70,57 @@ def prop_levels(case):
                     l.validate()
             except Exception as e:
                 raise Violation("valid-fails-validate", "valid document loaded at vlevel %d fails validate(): %s: %s\n%s" % (k, type(e).__name__, str(e)[:300], text), type(e).__name__)
+        _same_after_edit(case, lines, version, text)
+        _segments_have_the_level(case, lines, version, text)
     return {"nt": case["valid"] or any(acc.values()), "valid": case["valid"], "accepted_levels": sum(acc.values())}
+
+
+def _same_after_edit(case, lines, version, text):
+    """'Builds the same graph': the same edit (rename of a referenced line, removal of a line)
+    has the same outcome at every level."""
+    ed = case.get("edit")
+    if not ed:
+        return
+    outs = {}
+    for k, g in load_levels(lines, version, case.get("auto", False)).items():
+        try:
+            l = g.line(ed[1])
+            if l is None:
+                return
+            if ed[0] == "rename":
+                l.name = ed[2]
+            else:
+                g.rm(l)
+            outs[k] = (G.canon_doc(str(g), version), O.observe(g) if k else None)
+        except Exception as e:
+            raise Violation("edit-raised", "%r on the valid document loaded at vlevel %d raised %s: %s\n%s" % (ed, k, type(e).__name__, str(e)[:300], text), type(e).__name__)
+    for k in (0, 2, 3):
+        if outs[k][0] != outs[1][0]:
+            raise Violation("edit-differs", "after %r the document written at vlevel %d differs from vlevel 1: %s\n%s" % (
+                ed, k, G.counter_diff(outs[1][0], outs[k][0]), text), "%s/%d" % (ed[0], k))
+        if k and outs[k][1] != outs[1][1]:
+            raise Violation("edit-differs", "after %r the graph at vlevel %d differs from vlevel 1:\n%s\n%s" % (ed, k, O.obs_diff(outs[1][1], outs[k][1]), text), "%s/%d" % (ed[0], k))
+
+
+def _segments_have_the_level(case, lines, version, text):
+    """An invalid sequence assigned to any segment of a Gfa is reported at the assignment at
+    level 3 and at the write at level 2, whichever line it is and however the version was found."""
+    for k in (2, 3):
+        g = load_levels(lines, version, case.get("auto", False))[k]
+        for l in list(g.segments):
+            try:
+                l.sequence = "AC GT"
+                raised = False
+            except GfapyError:
+                raised = True
+            except Exception as e:
+                raise Violation("assign-foreign", "sequence = 'AC GT' raised %s: %s" % (type(e).__name__, str(e)[:200]), type(e).__name__)
+            if k == 3 and not raised:
+                raise Violation("not-reported-at-assignment", "Gfa at vlevel 3 (auto=%s): segment %s accepted sequence 'AC GT' silently\n%s" % (
+                    case.get("auto"), l.name, text), "level3")
+            if k == 2 and not raised and not reported_at_write(l, "sequence"):
+                raise Violation("not-reported-at-write", "Gfa at vlevel 2 (auto=%s): segment %s writes sequence 'AC GT' without report\n%s" % (
+                    case.get("auto"), l.name, text), "level2")
 
 
 @st.composite
@@ -76,7 +130,15 @@ def st_levels(draw):
     doc = gen.build_gfa1(r, {"nseg": (1, 4)}) if v == "gfa1" else gen.build_gfa2(r, {"nseg": (1, 4)})
     lines = gen.doc_lines(doc)
     if gen.chance(r, 0.5):
-        return {"version": v, "lines": lines, "valid": True}
+        m = M.ModelDoc.from_doc(doc)
+        named = [x for x in m.recs if M.name_of(x) is not None and not (v == "gfa1" and x.rt in "LC")]
+        edit = None
+        if named:
+            mentioned = set(mm[0] for x in m.recs for mm in M.mentions(x))
+            pref = [x for x in named if M.name_of(x) in mentioned] or named
+            tgt = gen.choice(r, pref)
+            edit = gen.choice(r, [["rename", M.name_of(tgt), "renamed9"], ["rename", M.name_of(tgt), "renamed9"], ["rm", M.name_of(tgt)]])
+        return {"version": v, "lines": lines, "valid": True, "auto": gen.chance(r, 0.5), "edit": edit}
     text = c07.mutate_text(r, "\n".join(lines), r.randint(1, 2))
     return {"version": v, "lines": text.split("\n"), "valid": False}
 
